@@ -70,6 +70,8 @@ type Scenario struct {
 	Note  string `json:"note,omitempty"`
 	Force bool   `json:"forceAdoption,omitempty"`
 	Tmpls []SetSpec `json:"tmpls,omitempty"` // deployment template pool
+	// Lag: ObjectSets created since the last "sync" step are invisible to the ObjectDeployment controller's reads
+	Lag bool `json:"lag,omitempty"`
 	Steps []Step `json:"steps"`
 }
 
@@ -107,6 +109,8 @@ type Runner struct {
 	injCount     int
 	// armed owner edit: before call number ownerInjN of the next pass the user toggles the owner's pause state
 	ownerInjN int
+	// armed in-pass cache sync: before call number syncInjN of the next pass the lagging reader catches up
+	syncInjN int
 	// InPassHook lets a property inject third-party actions inside a pass.
 	InPassHook func(r *Runner, c *kubesim.Call)
 	// Log collects a short human readable trace digest.
@@ -115,6 +119,8 @@ type Runner struct {
 	MaxQuiesceRounds int
 	Views []*PassView
 	KeepViews bool
+	// LastQuiesceOK: the last quiesce step reached a fixpoint
+	LastQuiesceOK bool
 	// probeRegistry maps the canonical JSON of rendered availabilityProbes to their reference form.
 	probeRegistry map[string][]refmodel.RObjectSetProbe
 }
@@ -168,6 +174,13 @@ func NewRunner(sc *Scenario, mons ...Monitor) *Runner {
 func (r *Runner) beforeCall(c *kubesim.Call) kubesim.Fault {
 	if r.InPassHook != nil {
 		r.InPassHook(r, c)
+	}
+	if r.syncInjN > 0 && c.NCall == r.syncInjN {
+		r.syncInjN = 0
+		if len(r.W.HiddenFromDeploy) > 0 {
+			r.Labels["cache-caught-up-inside-pass"] = true
+		}
+		r.SyncCaches()
 	}
 	if r.ownerInjN > 0 && c.NCall == r.ownerInjN {
 		r.ownerInjN = 0
@@ -608,11 +621,19 @@ func (r *Runner) Reconcile(ctrlName string, key kubesim.Key) (*PassView, error) 
 	}
 	p := r.W.RunPass(ctrlName, engine.Req(key.Namespace, key.Name))
 	r.faultKind = kubesim.FaultNone
-	r.injN, r.injCount, r.ownerInjN = 0, 0, 0
+	r.injN, r.injCount, r.ownerInjN, r.syncInjN = 0, 0, 0, 0
 	if p.Panic != nil {
 		return nil, Violf("C19", "panic-in-reconcile:"+ctrlName, "controller %s panicked: %v", ctrlName, p.Panic)
 	}
 	pv := r.buildView(p)
+	if r.Sc.Lag {
+		for _, c := range pv.Calls {
+			if c.Verb == "create" && c.Err == "" && !c.DryRun && (c.Key.Kind == "ObjectSet" || c.Key.Kind == "ClusterObjectSet") {
+				r.W.HiddenFromDeploy[c.Key] = true
+				r.Labels["lag-window-opened"] = true
+			}
+		}
+	}
 	if r.KeepViews {
 		r.Views = append(r.Views, pv)
 	}
@@ -644,8 +665,12 @@ var AllControllers = []string{
 // Quiesce runs fair rounds (every controller on every object of its kind, plus GC) until a full
 // round changes nothing. Returns rounds used and whether quiescence was reached.
 func (r *Runner) Quiesce() (int, bool, error) {
+	// disturbances stop: drop armed faults / injections
+	r.faultKind = kubesim.FaultNone
+	r.injN, r.ownerInjN, r.syncInjN = 0, 0, 0
 	for round := 1; round <= r.MaxQuiesceRounds; round++ {
 		before := r.W.Store.RV()
+		r.SyncCaches()
 		for _, cn := range AllControllers {
 			if !r.W.HasController(cn) {
 				continue
@@ -686,6 +711,8 @@ func (r *Runner) Exec(idx int, st Step) error {
 			return nil
 		}
 		r.SetWidgetStatus(keys[mod(st.I, len(keys))], WidgetStates[mod(st.J, len(WidgetStates))])
+	case "sync":
+		r.SyncCaches()
 	case "gc":
 		r.GC()
 	case "restart":
@@ -695,6 +722,8 @@ func (r *Runner) Exec(idx int, st Step) error {
 		kinds := []kubesim.Fault{kubesim.FaultErrorBefore, kubesim.FaultLostResponse, kubesim.FaultCrash, kubesim.FaultCrashAfter}
 		r.faultKind = kinds[mod(st.J, len(kinds))]
 		r.faultNCall = 1 + mod(st.I, 40)
+	case "injectSync":
+		r.syncInjN = 2 + mod(st.I, 4)
 	case "injectOwnerEdit":
 		r.ownerInjN = 2 + mod(st.I, 14)
 	case "inject":
@@ -702,7 +731,11 @@ func (r *Runner) Exec(idx int, st Step) error {
 		r.injKind = st.J
 		r.injCount = 0
 	case "quiesce":
-		_, _, err := r.Quiesce()
+		_, ok, err := r.Quiesce()
+		r.LastQuiesceOK = ok
+		if ok {
+			r.Labels["quiesced"] = true
+		}
 		return err
 	case "tpForeign":
 		// pre-existing objects outside the owner's reach: a ConfigMap in the other namespace and a ClusterWidget,
@@ -1145,4 +1178,36 @@ func (r *Runner) toggleOwnerPause(passID int) {
 			r.Labels["owner-edited-in-pass"] = true
 		}
 	})
+}
+
+// SyncCaches closes the create-not-yet-visible window of the deployment controller's reader.
+func (r *Runner) SyncCaches() {
+	for k := range r.W.HiddenFromDeploy {
+		delete(r.W.HiddenFromDeploy, k)
+	}
+}
+
+// KeysAt lists the keys of a kind that existed just before trace index idx.
+func (r *Runner) KeysAt(group, kind string, idx int) []kubesim.Key {
+	seen := map[kubesim.Key]bool{}
+	var out []kubesim.Key
+	tr := r.W.Store.Trace
+	if idx > len(tr) {
+		idx = len(tr)
+	}
+	for i := 0; i < idx; i++ {
+		c := tr[i]
+		if c.Key.Group == group && c.Key.Kind == kind && c.IsWrite() && !c.DryRun && !seen[c.Key] {
+			seen[c.Key] = true
+			out = append(out, c.Key)
+		}
+	}
+	var live []kubesim.Key
+	for _, k := range out {
+		if r.StateAt(k, idx) != nil {
+			live = append(live, k)
+		}
+	}
+	sort.Slice(live, func(i, j int) bool { return live[i].String() < live[j].String() })
+	return live
 }
